@@ -162,11 +162,11 @@ def run(ctx, replay=None):
         checks += [('Trie', 'k6', 'MC_Trie.tla', 'MC_Trie_k6.cfg', False), ('StateDB', 'qf', 'MC_StateDB.tla', 'MC_StateDB_qf.cfg', False),
                    ('StateDB', 'm', 'MC_StateDB.tla', 'MC_StateDB_m.cfg', False),
                    ('StateDB', 't', 'MC_StateDB.tla', 'MC_StateDB_t.cfg', False)]
-    sims = [('Trie', 'k6s', 'MC_Trie.tla', 'MC_Trie_k6s.cfg') + ((150, 30) if quick else (1200, 40)),
-            ('StateDB', 'q', 'MC_StateDB.tla', 'MC_StateDB_q.cfg') + ((100, 25) if quick else (1000, 30)),
-            ('StateDB', 'qf', 'MC_StateDB.tla', 'MC_StateDB_qf.cfg') + ((80, 25) if quick else (600, 30)),
-            ('StateDB', 'sim', 'MC_StateDB.tla', 'MC_StateDB_sim.cfg') + ((350, 40) if quick else (4000, 50)),
-            ('StateDB', 'simf', 'MC_StateDB.tla', 'MC_StateDB_simf.cfg') + ((120, 40) if quick else (1500, 50))]
+    sims = [('Trie', 'k6s', 'MC_Trie.tla', 'MC_Trie_k6s.cfg') + ((150, 30) if quick else (600, 40)),
+            ('StateDB', 'q', 'MC_StateDB.tla', 'MC_StateDB_q.cfg') + ((100, 25) if quick else (500, 30)),
+            ('StateDB', 'qf', 'MC_StateDB.tla', 'MC_StateDB_qf.cfg') + ((80, 25) if quick else (300, 30)),
+            ('StateDB', 'sim', 'MC_StateDB.tla', 'MC_StateDB_sim.cfg') + ((350, 40) if quick else (2000, 50)),
+            ('StateDB', 'simf', 'MC_StateDB.tla', 'MC_StateDB_simf.cfg') + ((120, 40) if quick else (700, 50))]
     with ThreadPoolExecutor(3 if quick else 4) as ex:
         fchecks = [(c, ex.submit(engine.tlc_check, ctx, SPEC, c[2], c[3], name='%s/%s' % (c[0], c[1]), dump=c[4], workers=W, timeout=TO))
                    for c in checks]
@@ -199,7 +199,7 @@ def run(ctx, replay=None):
     gj = graph_json(graphs['q']) if 'q' in graphs else None
     gvariants = [(4, v) for v in ([('trie', 0, 0), ('trie', 1, 1), ('trie', 2, 5), ('trie', 0, 7), ('secure', 0, 3), ('trie', rnd_km, 8 + ctx.seed)] if quick else allv)]
     if not quick:
-        gvariants += [(5, ('trie', 0, 2)), (5, ('trie', 2, 1))]
+        gvariants += [(5, ('trie', 2, 5))]
     if gj:
         for d, v in gvariants:
             traces.append({'id': 'triegraph-q-d%d-%s-km%d-vm%d' % (d, v[0], v[1], v[2]), 'init': None, 'steps': [],
